@@ -235,7 +235,8 @@ def _sim_one(args):
         hist = [L.tick(100, "Q", [["TX", tmpl, []]]), L.tick(100, event), L.tick(100), L.tick(100)]
     else:
         req = {"cancel": lambda i: ["C", i, None], "update": lambda i: ["U", i, "PERSIST"], "replace": lambda i: ["R", i, 2.3]}[kind]
-        hist = [L.tick(200, "Q", [["TX", tmpl, []]]), L.tick(200), L.tick(100, "Q", [["TX", [req(i) for i in range(n)], []]]), L.tick(100, event), L.tick(100), L.tick(100), L.tick(100)]
+        # the market event arrives 100 ms after the request, i.e. while it is in flight (latencies 150-280 ms)
+        hist = [L.tick(200, "Q", [["TX", tmpl, []]]), L.tick(200), L.tick(100, event, [["TX", [req(i) for i in range(n)], []]]), L.tick(100), L.tick(100), L.tick(100), L.tick(100)]
     ticks, scripts = L.split_history(hist, 1)
     spec = simx.MarketSpec(book0=L.BOOK0)
     L._install_created_tracking()
